@@ -71,6 +71,18 @@ def gen_cases(rng, tier):
         keys = [(na + nb, na - nb)]
         cases.append({'kind': 'rdo', 'fn': fn, 'norb': norb, 'n': na + nb, 'sz': na - nb,
                       'vec': fqeio.random_state(rng, norb, keys, density=0.9, amp=2), 'A': ents})
+    # the density matrices themselves, taken from a wavefunction object that is UPDATED IN PLACE between two requests
+    # (ax_plus_y, +=, scale, conj): the spin-orbital 1-, 2- and 3-RDM handed to the contraction routines must be those
+    # of the current state (exact: Gaussian-integer states)
+    for k in range(6 if tier == 'quick' else 30):
+        norb = 2
+        na, nb = rng.choice([(1, 1), (2, 1), (1, 2), (2, 2), (1, 1), (2, 1)])
+        keys = [(na + nb, na - nb)]
+        cases.append({'kind': 'fqerdm', 'norb': norb, 'n': na + nb, 'sz': na - nb,
+                      'vec': fqeio.random_state(rng, norb, keys, density=0.9, amp=2),
+                      'vec1': fqeio.random_state(rng, norb, keys, density=0.9, amp=2),
+                      'c': [rng.randint(-2, 2) or 1, rng.randint(-2, 2)],
+                      'update': ['axpy', 'iadd', 'scale', 'conj', 'axpy', 'iadd'][k % 6]})
     # factorisation cases need no model query (milliseconds each): many of them, because the singular values of an
     # antisymmetric generator come in degenerate pairs and defects in the degenerate-subspace handling need a
     # numerical coincidence (fix d5ddbdb: about 1 generator in 50 at n = 3)
@@ -91,6 +103,28 @@ def run_impl(case, mode):
         ham = c01.build_ham(case['ham'], norb)
         r = bc.get_acse_residual_fqe(w, ham, norb)
         return {'re': numpy.real(r).reshape(-1).tolist(), 'im': numpy.imag(r).reshape(-1).tolist(), 'shape': list(r.shape)}
+    if case['kind'] == 'fqerdm':
+        norb = case['norb']
+        key = (case['n'], case['sz'])
+        w = fqeio.make_wfn(norb, 'ns', case['n'], case['sz'], case['vec'])
+        w1 = fqeio.make_wfn(norb, 'ns', case['n'], case['sz'], case['vec1'])
+        sec = w.sector(key)
+        sec.get_openfermion_rdms()
+        sec.get_three_pdm()                       # first request, on the initial state
+        c = complex(*case['c'])
+        if case['update'] == 'axpy':
+            w.ax_plus_y(c, w1)
+        elif case['update'] == 'iadd':
+            w += w1
+        elif case['update'] == 'scale':
+            w.scale(c)
+        else:
+            w.sector(key).conj()
+        sec = w.sector(key)
+        opdm, tpdm = sec.get_openfermion_rdms()
+        d3 = sec.get_three_pdm()
+        flat = lambda t: [[float(z.real), float(z.imag)] for z in numpy.asarray(t).reshape(-1)]
+        return {'opdm': flat(opdm), 'tpdm': flat(tpdm), 'd3': flat(d3), 'state': fqeio.read_state(w)}
     if case['kind'] == 'rdo':
         nso = 2 * case['norb']
         A = numpy.zeros((nso,) * 4, dtype=complex)
@@ -167,6 +201,34 @@ def expected(model, case):
         norb = case['norb']
         v = _tensor(model, 'COMM4', norb, c01.ham_tokens(case['ham'], norb), case['vec'], case['vec'])
         return {'re': v[0::2], 'im': v[1::2]}
+    if case['kind'] == 'fqerdm':
+        norb = case['norb']
+        nso = 2 * norb
+        c = complex(*case['c'])
+        v0 = {(a, b): complex(re, im) for a, b, re, im in case['vec']}
+        v1 = {(a, b): complex(re, im) for a, b, re, im in case['vec1']}
+        if case['update'] == 'axpy':
+            v2 = {k: v0.get(k, 0) + c * v1.get(k, 0) for k in set(v0) | set(v1)}
+        elif case['update'] == 'iadd':
+            v2 = {k: v0.get(k, 0) + v1.get(k, 0) for k in set(v0) | set(v1)}
+        elif case['update'] == 'scale':
+            v2 = {k: c * z for k, z in v0.items()}
+        else:
+            v2 = {k: z.conjugate() for k, z in v0.items()}
+        vec2 = [[a, b, int(round(z.real)), int(round(z.imag))] for (a, b), z in sorted(v2.items()) if z != 0]
+
+        def rdm2(pat):
+            vals = []
+            if not vec2:
+                return [[0, 0]] * (nso ** len(pat))
+            for ix in itertools.product(range(nso), repeat=len(pat)):
+                ops = []
+                for q, d in zip(ix, pat):
+                    ops += [q, d]
+                t = model.q('MATELH', norb, 1, 'T', len(pat), *ops, 1, 0, *fqeio.vec_tokens(vec2), *fqeio.vec_tokens(vec2))
+                vals.append([int(t[0]), int(t[1])])
+            return vals
+        return {'vec2': vec2, 'opdm': rdm2([1, 0]), 'tpdm': rdm2([1, 1, 0, 0]), 'd3': rdm2([1, 1, 1, 0, 0, 0])}
     if case['kind'] == 'rdo':
         norb = case['norb']
         nso = 2 * norb
@@ -206,6 +268,19 @@ def compare(case, got, exp, mode):
     if 'exc' in got or 'crash' in got:
         return ['raised %s: %s' % (got.get('exc', 'CRASH'), str(got.get('msg'))[:200])]
     bad = []
+    if case['kind'] == 'fqerdm':
+        gs = {(a, b): (re, im) for a, b, re, im in got['state']}
+        es = {(a, b): (re, im) for a, b, re, im in exp['vec2']}
+        if any(abs(gs.get(k, (0, 0))[0] - es.get(k, (0, 0))[0]) + abs(gs.get(k, (0, 0))[1] - es.get(k, (0, 0))[1]) > 1e-9 for k in set(gs) | set(es)):
+            return ['in-place update %s did not produce the expected state (harness / C08 territory)' % case['update']]
+        for name in ('opdm', 'tpdm', 'd3'):
+            for k, (g, e) in enumerate(zip(got[name], exp[name])):
+                if abs(g[0] - e[0]) > 1e-9 * (1 + abs(e[0])) or abs(g[1] - e[1]) > 1e-9 * (1 + abs(e[1])):
+                    bad.append('%s of the state after the in-place update (%s), flat index %d: %r%+rj, exact %d%+dj' % (name, case['update'], k, g[0], g[1], e[0], e[1]))
+                    break
+            if len(got[name]) != len(exp[name]):
+                bad.append('%s has %d entries, expected %d' % (name, len(got[name]), len(exp[name])))
+        return bad
     if case['kind'] in ('acse', 'rdo'):
         nso = 2 * case['norb']
         arity = 2 if case.get('fn') == 'one_symm' else 4
@@ -241,13 +316,15 @@ def classify(case, mode, bad, got, exp):
 
 
 def nontrivial(case, exp):
+    if case['kind'] == 'fqerdm':
+        return len(set(map(tuple, exp['tpdm']))) >= 3
     if case['kind'] in ('acse', 'rdo'):
         return len(set(zip(exp['re'], exp['im'])) - {(0, 0)}) >= 2
     return True
 
 
 def case_class(case):
-    return case['kind'] + ('/' + case['method'] if 'method' in case else '') + ('/' + case['fn'] if 'fn' in case else '')
+    return case['kind'] + ('/' + case['method'] if 'method' in case else '') + ('/' + case['fn'] if 'fn' in case else '') + ('/' + case['update'] if 'update' in case else '')
 
 
 def shrink(case):
@@ -255,7 +332,7 @@ def shrink(case):
 
 
 def sample(case):
-    c = {k: v for k, v in case.items() if k not in ('tpdm', 'd3')}
+    c = {k: v for k, v in case.items() if k not in ('tpdm', 'd3', 'vec1')}
     if 'vec' in c:
         c['vec'] = c['vec'][:3]
     return c
